@@ -1,0 +1,15 @@
+//go:build verif
+
+package congestion
+
+// Export shim for the verification harness in /verif (compiled only with -tags verif).
+
+// VerifPacer exposes the unexported pacer; its methods (SentPacket, Budget, TimeUntilSend,
+// SetMaxDatagramSize) are already exported on the type.
+type VerifPacer = pacer
+
+// VerifNewPacer constructs a pacer around a bandwidth function (bits per second).
+func VerifNewPacer(getBandwidth func() Bandwidth) *VerifPacer { return newPacer(getBandwidth) }
+
+// VerifMaxBurstSize returns the pacer's current burst cap.
+func (p *pacer) VerifMaxBurstSize() uint64 { return uint64(p.maxBurstSize()) }
